@@ -1,7 +1,7 @@
 // C18 runtime monitor on a full Teakra instance (built with ASan + UBSan in the asan flavour):
 //   soup   random instruction streams (valid-biased opcodes, control flow to anywhere) from random
 //          well-formed register states, Run(n)
-//   mmio   every MMIO offset written with boundary/random 16-bit values, DMA transfers with arbitrary
+//   mmio   every MMIO offset written with boundary/random 16-bit values, DMA transfers (bounded to 2^18 elements) with arbitrary
 //          configurations started, AHBM accesses, then Run
 // Every raw access outside the 0x80000-byte array is vetoed and logged with its cause; a run ends by
 // returning, by UnimplementedException or by a deliberate assertion -- anything else (signal, sanitizer abort,
@@ -56,6 +56,18 @@ int main(int argc, char** argv) {
                     u16 v = rng.chance(1, 8) ? 0x40C0 : rng.edge16();
                     unsigned r = rng.below(10);
                     what = "mmio";
+                    // a DMA start moves size0 x size1 x size2 elements at once (up to 2^48): keep every transfer below 2^18 elements by
+                    // shrinking the sizes of the active channel first (a long finite transfer is not what this driver looks for)
+                    auto bound_dma = [&]() {
+                        for (int guard = 0; guard < 64; ++guard) {
+                            u32 z[3] = {t.MMIORead(0x1C8), t.MMIORead(0x1CA), t.MMIORead(0x1CC)};
+                            double n = (double)(z[0] ? z[0] : 1) * (z[1] ? z[1] : 1) * (z[2] ? z[2] : 1);
+                            if (n <= 262144.0) break;
+                            int big = z[0] >= z[1] && z[0] >= z[2] ? 0 : z[1] >= z[2] ? 1 : 2;
+                            t.MMIOWrite((u16)(0x1C8 + 2 * big), (u16)(z[big] / 2));
+                        }
+                    };
+                    if ((r < 6 && off == 0x1DE && v == 0x40C0) || r >= 9) bound_dma();
                     if (r < 6) t.MMIOWrite(off, v);
                     else if (r < 8) (void)t.MMIORead(off);
                     else if (r < 9) t.AHBMWrite32(rng.next() & 0xFFFFFFFF, (u32)rng.next());
